@@ -45,3 +45,13 @@ Fixpoint chain_find (n : nat) (d : db) (e : entry) (f : str) : option str :=
    identity means the same object (hence the same content) *)
 Definition ids_wf (d : db) (e0 : entry) : Prop :=
   forall x y, In x (e0 :: map snd d) -> In y (e0 :: map snd d) -> e_id x = e_id y -> x = y.
+
+(* ---- files, for reading filtered by a citation list ------------------------------------- *)
+(* no key occurs twice in the file (modulo case) *)
+Definition keys_distinct (file : db) : Prop := NoDup (map (fun ke => lower (fst ke)) file).
+
+(* children first (the ordering rule of finding F13, properties C05/C06): the crossref of an
+   entry never resolves to the entry itself or to an entry standing before it in the file *)
+Definition children_first (file : db) : Prop :=
+  forall pre k e post cr, file = pre ++ (k, e) :: post ->
+    ci_get (e_fields e) s_crossref = Some cr -> ci_get (pre ++ [(k, e)]) cr = None.
